@@ -191,14 +191,17 @@ Inductive reason :=
 | RName (x p : string)             (* wrapper parameter x, passed bare, lands on callee parameter p *)
 | RUndefined (x : string)          (* argument mentions undefined name x: NameError *)
 | RConstShadow (x r : string)      (* W has parameter x, F has parameter x, the call passes the constant r for it *)
-| RDropped (x : string).           (* W has parameter x, F has parameter x (with default), the call does not pass it *)
+| RDropped (x : string)            (* W has parameter x, F has parameter x (with default), the call does not pass it *)
+| RLocalName (x p : string).       (* local variable x of W lands on parameter p of F although F has a parameter named x *)
 
 Definition undefined_of (a : argexpr) : list reason :=
   match a with AUndefined x => [RUndefined x] | _ => [] end.
 
-Definition name_check (callee : string) (pa : string * argexpr) : list reason :=
+Definition name_check (callee : string) (sg : signature) (pa : string * argexpr) : list reason :=
   match pa with
   | (p, ABare x _) => if same_meaning callee x p then [] else [RName x p]
+  | (p, ALocal x) =>
+      if negb (String.eqb x p) && smem x (param_names sg) then [RLocalName x p] else []
   | _ => []
   end.
 
@@ -225,6 +228,9 @@ Definition shadow_check (sg : signature) (named : list (string * argexpr)) (x : 
    3. every binding  p := ABare x  (x a parameter of W, possibly normalised by W
       before the call) has [same_meaning F x p]: p = x, or (x,p) in [renamings];
       same for bare names landing in **kwargs under key p;
+   3'. a binding  p := ALocal x  with x <> p is refused when F also has a parameter
+      named x (a local named after one parameter of F handed to another one:
+      `X0`/`Y0` crossed over);
    4. for every parameter x of W that is also the name of a parameter of F: the
       call binds it, and not to a constant.  (Binding it to another variable or
       expression is accepted: `G := H` after percolation, recursion on
@@ -240,8 +246,8 @@ Definition site_check (s : site) : list reason :=
   | BErr e => (RBind e :: undef)%list
   | BOk b =>
       (undef ++
-       flat_map (name_check (s_callee s)) (b_named b) ++
-       flat_map (name_check (s_callee s)) (b_xkw b) ++
+       flat_map (name_check (s_callee s) (s_sig s)) (b_named b) ++
+       flat_map (name_check (s_callee s) (s_sig s)) (b_xkw b) ++
        flat_map (shadow_check (s_sig s) (b_named b)) (s_wparams s))%list
   end.
 
@@ -265,7 +271,7 @@ Definition berr_str (e : berr) : string :=
   | BoundTwice p => "TypeError: multiple values for parameter " ++ p
   | UnknownKeyword k => "TypeError: unexpected keyword argument " ++ k
   | MissingRequired p => "TypeError: missing required argument " ++ p
-  | StarArg => "call uses *e / **e (not analysed; rejected)"
+  | StarArg => "call uses *e or **e (not analysed, rejected)"
   end.
 
 Definition reason_str (r : reason) : string :=
@@ -275,6 +281,7 @@ Definition reason_str (r : reason) : string :=
   | RUndefined x => "NameError: name " ++ x ++ " is not defined in the wrapper"
   | RConstShadow x r => "wrapper parameter " ++ x ++ " ignored: callee parameter " ++ x ++ " receives the constant " ++ r
   | RDropped x => "wrapper parameter " ++ x ++ " ignored: callee parameter " ++ x ++ " is left at its default"
+  | RLocalName x p => "local variable " ++ x ++ " lands on callee parameter " ++ p ++ " although the callee has a parameter " ++ x
   end.
 
 Definition report (l : list site) : list (string * bool * list string) :=
